@@ -127,7 +127,31 @@ def cargo_build(pkg, features=None, rustflags=None, timeout=2400, target_sub=Non
 
 # ---------------------------------------------------------------- coq
 
+COQPROJECT_HEAD = ("-Q theories LI\n"
+                   "-arg -w -arg -notation-overridden,-deprecated-hint-without-locality,-deprecated-instance-without-locality,"
+                   "-non-recursive,-deprecated-hint-rewrite-without-locality\n")
+
+
+def gen_coqproject():
+    """_CoqProject lists every theories/**/*.v (generated, so adding a file needs no shared edit)"""
+    files = []
+    for d, _, fs in os.walk(os.path.join(COQ, "theories")):
+        for f in fs:
+            if f.endswith(".v") and not f.startswith("."):
+                files.append(os.path.relpath(os.path.join(d, f), COQ))
+    txt = COQPROJECT_HEAD + "\n".join(sorted(files)) + "\n"
+    proj = os.path.join(COQ, "_CoqProject")
+    try:
+        old = open(proj).read()
+    except OSError:
+        old = None
+    if old != txt:
+        with open(proj, "w") as fh:
+            fh.write(txt)
+
+
 def coq_makefile():
+    gen_coqproject()
     mk = os.path.join(COQ, "Makefile")
     proj = os.path.join(COQ, "_CoqProject")
     if not os.path.exists(mk) or os.path.getmtime(mk) < os.path.getmtime(proj):
@@ -377,6 +401,3 @@ def coq_str(s):
 def coq_opt(x, f=str):
     return "None" if x is None else "(Some %s)" % f(x)
 
-
-# harness packages built by setup.sh: (package, kwargs of cargo_build)
-ALL_PACKAGES = [("h_rt",)]
